@@ -196,6 +196,32 @@ Theorem C09_stripVendor_source_computes_the_model : forall path,
   run_sv strip_vendor_src path = Some (strip_vendor path).
 Proof. exact strip_vendor_source_is_model. Qed.
 
+(* consequences for fileDecorator.resolvePath, for all inputs: the path stored on an identifier never
+   contains a vendor directory; vendoring the decorated package or the package referred to changes no
+   assignment; without ResolveLocalPath the decorated package's own path is never stored; with it,
+   every resolved reference outside the avoided positions keeps its vendor-free path *)
+Theorem C09_stored_paths_are_vendor_free : forall force local rl pf raw,
+  strip_vendor (resolve_path force local rl pf raw) = resolve_path force local rl pf raw.
+Proof. exact resolve_path_is_vendor_free. Qed.
+
+Theorem C09_assignment_is_blind_to_vendoring : forall force local rl pf raw,
+  resolve_path force local rl pf raw = resolve_path force (strip_vendor local) rl pf (strip_vendor raw).
+Proof. exact resolve_path_is_vendor_blind. Qed.
+
+Theorem C09_local_path_is_never_stored : forall force local pf raw,
+  resolve_path force local false pf raw = strip_vendor local -> resolve_path force local false pf raw = "".
+Proof. exact resolve_path_never_stores_the_local_path. Qed.
+
+Theorem C09_resolve_local_path_keeps_every_path : forall force local pf raw,
+  (negb force && in_avoid pf) = false -> resolve_path force local true pf raw = strip_vendor raw.
+Proof. exact resolve_path_with_local_paths. Qed.
+
+Example C09_resolve_path_laws_are_not_vacuous :
+  resolve_path false "root/vendor/root/a" false "CallExpr.Fun" "root/a" = "" /\
+  resolve_path false "root/a" false "CallExpr.Fun" "root/vendor/golang.org/x/b" = "golang.org/x/b" /\
+  resolve_path false "root/a" true "CallExpr.Fun" "root/a" = "root/a".
+Proof. exact resolve_path_laws_nonvacuous. Qed.
+
 Print Assumptions C09_translated_sources_are_within_the_vocabulary.
 Print Assumptions C09_gotypes_source_computes_the_model.
 Print Assumptions C09_goast_source_computes_the_model.
@@ -218,3 +244,7 @@ Print Assumptions C09_strip_vendor_removes_only_a_prefix.
 Print Assumptions C09_strip_vendor_keeps_unvendored_paths.
 Print Assumptions C09_strip_vendor_last_vendor_directory_decides.
 Print Assumptions C09_stripVendor_source_computes_the_model.
+Print Assumptions C09_stored_paths_are_vendor_free.
+Print Assumptions C09_assignment_is_blind_to_vendoring.
+Print Assumptions C09_local_path_is_never_stored.
+Print Assumptions C09_resolve_local_path_keeps_every_path.
